@@ -229,6 +229,18 @@ func (d *describer) describe(v ssa.Value) *Node {
 	case *ssa.Call:
 		return d.call(&v.Call)
 	case *ssa.Extract:
+		// k-th result of a pure expression function: the expression itself
+		if call, ok := v.Tuple.(*ssa.Call); ok && !call.Call.IsInvoke() {
+			if f, ok := call.Call.Value.(*ssa.Function); ok && d.eng != nil {
+				if exprs := d.eng.pureExprs(f); exprs != nil && v.Index < len(exprs) {
+					var args []*Node
+					for _, a := range call.Call.Args {
+						args = append(args, d.D(a))
+					}
+					return exprs[v.Index].Subst(args)
+				}
+			}
+		}
 		return mk("extract", fmt.Sprint(v.Index), d.D(v.Tuple))
 	case *ssa.Phi:
 		var kids []*Node
@@ -583,6 +595,55 @@ func (e *Engine) accessor(f *ssa.Function) *Node {
 	}
 	e.acc[f] = n
 	return n
+}
+
+// pureExprs: a function whose single block only computes arithmetic over its
+// parameters (field reads, unary / binary operators, conversions, len) and
+// returns several results — e.g. a helper that computes offsets and lengths —
+// is transparent as well: each result is described by its expression.
+func (e *Engine) pureExprs(f *ssa.Function) []*Node {
+	if e == nil {
+		return nil
+	}
+	if n, ok := e.pure[f]; ok {
+		return n
+	}
+	if e.pure == nil {
+		e.pure = map[*ssa.Function][]*Node{}
+	}
+	e.pure[f] = nil
+	if !e.canExpand(f) || len(f.Blocks) != 1 || f.Signature.Results().Len() < 2 || len(f.FreeVars) > 0 {
+		return nil
+	}
+	var ret *ssa.Return
+	for _, in := range f.Blocks[0].Instrs {
+		switch x := in.(type) {
+		case *ssa.FieldAddr, *ssa.Field, *ssa.DebugRef, *ssa.BinOp, *ssa.Convert, *ssa.ChangeType:
+		case *ssa.UnOp:
+			if x.Op == token.ARROW {
+				return nil
+			}
+		case *ssa.Call:
+			b, ok := x.Call.Value.(*ssa.Builtin)
+			if !ok || (b.Name() != "len" && b.Name() != "cap") {
+				return nil
+			}
+		case *ssa.Return:
+			ret = x
+		default:
+			return nil
+		}
+	}
+	if ret == nil {
+		return nil
+	}
+	d := newDescriber(nil, f, nil)
+	var out []*Node
+	for _, r := range ret.Results {
+		out = append(out, d.D(r))
+	}
+	e.pure[f] = out
+	return out
 }
 
 // soleCopy: a zero-initialised array local whose only write is one
